@@ -13,6 +13,7 @@ import RbV.Thm.GenSrcShiftAndNext
 import RbV.Thm.GenSrcKmpNext
 import RbV.Thm.GenSrcHorspoolNext
 import RbV.Thm.GenSrcBndmNext
+import RbV.Thm.GenSrcBomNext
 /-!
 # C08 — exact matchers return exactly all occurrences
 
@@ -349,5 +350,37 @@ theorem bndm_new_source_long_panics (p : List Nat) (hm : 64 < p.length) : Gen.Sr
 
 example : GenSrcBndmNext.findAllSrc [1, 2, 1] [1, 2, 1, 2, 1] = Rs.Res.ok [0, 2] := by
   rw [bndm_source_exact _ _ (by decide) (by decide) (by decide) (by decide) (by decide)]; decide
+
+/-- **BOM search on the translated source text**: `BOM::find_all(t)` and `Matches::next` until `None` (which calls the
+translated `BOM::delta`), as written in `bom.rs` — the backward scan `while j <= m { match q { Some(q_) => …, None =>
+break } }`, `text[window - j]`, `window - m`, `m + 2 - j` — run over the oracle table `Bom.build p` of the mirror model,
+never panic, never run out of loop fuel and list exactly the occurrences of `p` in `t`, for every non-empty pattern and
+every text with `|t| + |p| + 2 < 2^64`.  The constructor `BOM::new` is not translated (`while let`, `VecMap` insertion):
+that it builds `Bom.build p` stays tied by the mirror model and the comparison of the real table (tag `bom-table-same`). -/
+theorem bom_search_source_exact (p t : List Nat) (hp : 0 < p.length) (h64 : t.length + p.length + 2 < 2 ^ 64) :
+    GenSrcBomNext.findAllSrc p t = Rs.Res.ok (occurrences p t) :=
+  GenSrcBomNext.findAllSrc_eq_model p t hp h64
+
+/-- `BOM::delta` as written = the model's `delta`, for every table (a `VecMap` given by its entries), state and symbol -/
+theorem bom_delta_source_eq_model (T : Bom.Table) (q a : Nat) :
+    Gen.SrcBomNext.delta T q a = Rs.Res.ok (Bom.delta T q a) :=
+  GenSrcBomNext.delta_eq_model T q a
+
+/-- one call of the translated `next` from window position `window ≥ m` vs. the model's `Bom.search` (`G`) -/
+theorem bom_next_source_eq_model (p t : List Nat) (hp : 0 < p.length) (h64 : t.length + p.length + 2 < 2 ^ 64)
+    (window : Nat) (hw : p.length ≤ window) :
+    ∃ w' r, GenSrcBomNext.nextS p t window = Rs.Res.ok (w', r) ∧
+      ((r = none ∧ GenSrcBomNext.G p t window = []) ∨
+       (∃ v, r = some v ∧ window < w' ∧ p.length ≤ w' ∧
+          GenSrcBomNext.G p t window = v :: GenSrcBomNext.G p t w')) :=
+  GenSrcBomNext.next_eq_model p t hp h64 window hw
+
+/-- the translated inner loop follows the model's `scanS` (panics explicit) step by step, for every table -/
+theorem bom_scan_source_eq_model (T : Bom.Table) (t : List Nat) (window m : Nat) (hw : window + 1 < 2 ^ 64)
+    (fuel j : Nat) (q : Option Nat) (r : Option Nat × Nat) (h : Bom.scanS T t window m fuel j q = some r) :
+    Gen.SrcBomNext.next_while2 m T t window (fuel + 1) (q, j) = Rs.Res.ok r :=
+  GenSrcBomNext.while2_eq T t window m hw fuel j q r h
+
+example : GenSrcBomNext.findAllSrc [1, 2, 1] [1, 2, 1, 2, 1] = Rs.Res.ok [0, 2] := by decide
 
 end RbV.Thm.C08
